@@ -577,6 +577,60 @@ pub fn run(ctx: &Ctx) {
             }
         }
     }
+    fresh_process_step(ctx, &pool);
+}
+
+/// `verif c14-probe <cell json> <seed> <k>`: the first k samples of a fresh object in a fresh *process* (this call
+/// is the first use of the library in the process), as bit patterns plus the RNG position after each
+pub fn probe_line(cell: &Cell, seed: u64, k: usize) -> String {
+    let mut out = vec![];
+    if let Ok(o) = build(cell) {
+        let mut rng = VRng::from_env(seed);
+        for _ in 0..k {
+            rng.begin_call();
+            match catch(|| o.sample_v(&mut rng)) {
+                Ok(v) => out.push(format!("{:?}@{}", v.bits(), rng.pos)),
+                Err(_) => {
+                    out.push("panic".into());
+                    break;
+                }
+            }
+        }
+    }
+    out.join(";")
+}
+
+/// process-global hidden state (a table or flag initialised by whichever object sampled first, a global
+/// counter) is invisible to replays inside this process: every pool cell is therefore sampled here — late in the
+/// run, after everything else — and in a fresh process where it is the first caller; the results must agree
+fn fresh_process_step(ctx: &Ctx, pool: &[Cell]) {
+    let exe = match std::env::current_exe() {
+        Ok(e) => e,
+        Err(_) => return,
+    };
+    use rayon::prelude::*;
+    let k = 6usize;
+    let bad: Vec<(Cell, String, String)> = pool
+        .par_iter()
+        .enumerate()
+        .filter_map(|(i, cell)| {
+            let seed = hseed(&[ctx.seed, cell.hash64(), i as u64, 0xF2E5]);
+            let here = probe_line(cell, seed, k);
+            let cj = serde_json::to_string(cell).ok()?;
+            let outp = std::process::Command::new(&exe).args(["c14-probe", &cj, &seed.to_string(), &k.to_string()]).output().ok()?;
+            if !outp.status.success() {
+                return None;
+            }
+            let there = String::from_utf8_lossy(&outp.stdout).trim().to_string();
+            ctx.eval(1);
+            if there != here { Some((cell.clone(), here, there)) } else { None }
+        })
+        .collect();
+    ctx.class("fresh_process_probes", pool.len() as u64);
+    for (cell, here, there) in bad.into_iter().take(3) {
+        let s = Schedule { cells: vec![cell.clone()], steps: vec![], seed: 0 };
+        report(ctx, &s, "process_history_dependent_result", &format!("{}: the first samples of a fresh object differ between this process (after the whole run) and a fresh process in which it is the first caller: here {} / fresh process {}", cell.key(), here, there));
+    }
 }
 
 pub fn replay(ctx: &Ctx, case: &Value) -> bool {
